@@ -161,9 +161,11 @@ std::string gen_posix_footer(Rng* r, bool valid) {
   static const std::vector<std::string> stds = {"EST", "UTC", "<-03>", "<+0330>", "AEST", "CET", "LongAbbrev", "<A>", "NZST", "<+1245>"};
   static const std::vector<std::string> offs = {"5", "0", "-1", "3:30", "-12:45", "24", "-24", "+8", "0:00:01", "-0", "12", "-14"};
   std::string s = r->pick(stds) + r->pick(offs);
+  // Abbreviations are byte strings: letters beyond ASCII (as an 8-bit or UTF-8 locale would write them), blanks, punctuation.
+  if (r->chance(0.06)) s = r->pick(std::vector<std::string>{"\xc4ST", "\xd6\xc4Z", "M\xc3\x89Z", "E\xa0T", "A_B", "e.s.t", "E T", "\xb2\xb3\xb9", "I\xfdi"}) + r->pick(offs);
   if (r->chance(0.75)) {
     static const std::vector<std::string> dsts = {"EDT", "<-02>", "CEST", "<+0430>", "NZDT", "XDT"};
-    s += r->pick(dsts);
+    s += r->chance(0.05) ? r->pick(std::vector<std::string>{"\xd6""DT", "\xc3\x89T\xc3\x89", "D\xa0T", "d_t"}) : r->pick(dsts);
     if (r->chance(0.4)) s += r->pick(offs);
     if (r->chance(0.12)) s += ",0/0,J365/" + std::to_string(r->range(23, 26));  // all-year-DST shape
     else { s += "," + gen_date(r) + "," + gen_date(r); }
